@@ -16,7 +16,8 @@ B3E_FAMILY = ['B3E', 'KB3E', 'TB3E', 'S4B3E', 'S5B3E']
 FDE_FAMILY = ['FDE', 'KFDE', 'TFDE', 'S4FDE', 'S5FDE']
 
 
-def run_jobs(jobs: list[dict], tag: str, nproc=C.NCPU):
+def run_jobs(jobs: list[dict], tag: str, nproc=None):
+    nproc = nproc or C.NCPU
     """jobs carry an 'order' field (default 0).  Returns the list of record files."""
     d = C.subdir(f'proofs-{tag}')
     by_order = defaultdict(list)
